@@ -695,8 +695,11 @@ def _run(ctx):
 
 
 def run_enum_simple(ctx, reqs, maxoks=2000):
+    # trees of the sequences that parse are compared one by one; when an enumeration is split into
+    # many requests only the first few of each request are kept (they are sampled again later)
+    per = max(10, min(maxoks, 60000 // max(1, len(reqs))))
     ins = [{"vocab": r["vocab"] + r["pre_toks"], "vsize": len(r["vocab"]), "n": r["n"] + len(r["pre_toks"]),
-            "prefix": [len(r["vocab"]) + i for i in range(len(r["pre_toks"]))] + r["prefix"], "maxoks": maxoks}
+            "prefix": [len(r["vocab"]) + i for i in range(len(r["pre_toks"]))] + r["prefix"], "maxoks": per}
            for r in reqs]
     ok, outs, lg = vlib.run_driver_parallel(ctx.bins["sql"], "enum", ins, nshards=12, timeout=3000)
     if not ok or len(outs) != len(ins):
